@@ -40,7 +40,7 @@ theorem sfDiff?_none_of_base {T} {ms : Mid} (hI : Inv T ms) {e : SfElem} (he : e
 theorem spendable_of_ScIn2Ok {T} {ms : Mid} (hc : Ctx T ms.base) (hI : Inv T ms)
     (hfix : ms.base.child ≥ ms.base.P.ephemeralFix) {sci : ScIn2} (h : ScIn2Ok ms sci) :
     SpendableSc T ms sci.parent := by
-  obtain ⟨hs, hl⟩ := h
+  obtain ⟨hs, _, hl⟩ := h
   cases hleaf : sci.parent.leaf with
   | some v =>
     rw [hleaf] at hl; simp only [] at hl
@@ -65,13 +65,17 @@ theorem spendable_of_ScIn2Ok {T} {ms : Mid} (hc : Ctx T ms.base) (hI : Inv T ms)
             split at hl
             · cases hl
             · rename_i hva
+              have hmat : sci.parent.maturity = (ms.sces.getD j default).e.maturity := by
+                split at hl
+                · cases hl
+                · rename_i hm; exact Decidable.not_not.mp hm
               have hjlt : j < ms.sces.length := by
                 rcases Nat.lt_or_ge j ms.sces.length with h | h
                 · exact h
                 · exact absurd (Or.inl h) hc1
               have hgd : ms.sces.getD j default = ms.sces[j] := by
                 rw [List.getD_eq_getElem?_getD, List.getElem?_eq_getElem hjlt]; rfl
-              rw [hgd] at hc1 hid hva
+              rw [hgd] at hc1 hid hva hmat
               have hid' : ms.sces[j].e.id = sci.parent.id := by
                 have : ¬ sci.parent.id ≠ ms.sces[j].e.id := hid
                 exact (Decidable.not_not.mp this).symm
@@ -92,7 +96,7 @@ theorem spendable_of_ScIn2Ok {T} {ms : Mid} (hc : Ctx T ms.base) (hI : Inv T ms)
                   rw [hid', hs] at this; cases this
               · have : ¬ (sci.parent.value ≠ ms.sces[j].e.value ∨ sci.parent.addr ≠ ms.sces[j].e.addr) := hva
                 have h1 : ¬ sci.parent.value ≠ ms.sces[j].e.value := fun hh => this (Or.inl hh)
-                exact (Decidable.not_not.mp h1).symm
+                exact ⟨(Decidable.not_not.mp h1).symm, hmat.symm⟩
 
 theorem spendable_of_SfIn2Ok {T} {ms : Mid} (hc : Ctx T ms.base) (hI : Inv T ms)
     (hfix : ms.base.child ≥ ms.base.P.ephemeralFix) {sfi : SfIn2} (h : SfIn2Ok ms sfi) :
@@ -245,7 +249,9 @@ theorem v2txn_conserves {T} {ms ms' : Mid} {t : Txn2} {mw : Nat} {R : List (Kind
     Inv T ms' ∧ Fresh T ms' R ∧ ms'.base = ms.base ∧
     Phi ms' + t.fee + t.forfeits = Phi ms + t.claims ms.pool ∧ sfTot ms' = sfTot ms ∧ ms.pool ≤ ms'.pool ∧
     (CsOk ms → CsOk ms' ∧ Psi ms' + 10000 * t.claims ms.pool ≤ Psi ms + (ms'.pool - ms.pool) * sfTot ms) ∧
-    ms'.pool = ms.pool + t.taxes := by
+    ms'.pool = ms.pool + t.taxes ∧
+    (1 ≤ ms.base.P.maturityDelay →
+      scW (wImm ms.base.child) ms + t.claims ms.pool ≤ scW (wImm ms.base.child) ms') := by
   obtain ⟨hv1, hv2, hv3⟩ := validateV2Transaction_ok hv
   obtain ⟨hsc, hscn, hbal⟩ := validateV2Siacoins_ok hv1
   obtain ⟨hsf, hsfn, hsfbal⟩ := validateV2Siafunds_ok hv2
@@ -267,14 +273,14 @@ theorem v2txn_conserves {T} {ms ms' : Mid} {t : Txn2} {mw : Nat} {R : List (Kind
   unfold Txn2.created at hF
   simp only [List.append_assoc] at hF
   -- 1. siacoin inputs
-  obtain ⟨r1, e1P, e1S, e1p⟩ := loop_scIns2 t.scIns ms ms1 hc hI pSc hscn a1
+  obtain ⟨r1, e1P, e1S, e1p, e1W⟩ := loop_scIns2 t.scIns ms ms1 hc hI pSc hscn a1
   have F1 := hF.agree r1.agree (by
     intro q hq hm
     obtain ⟨sci, hs, he⟩ := List.mem_map.mp hm
     exact (pSc sci hs).not_fresh hF q hq he.symm)
   have hc1 : Ctx T ms1.base := by rw [r1.base]; exact hc
   -- 2. siacoin outputs
-  obtain ⟨r2, F2, e2P, e2S, e2p⟩ := loop_scOuts t.scOuts ms1 ms2 _ hc1 r1.inv F1 a2
+  obtain ⟨r2, F2, e2P, e2S, e2p, e2W⟩ := loop_scOuts t.scOuts ms1 ms2 _ hc1 r1.inv F1 a2
   have hc2 : Ctx T ms2.base := by rw [r2.base]; exact hc1
   -- membership of created ids in the fresh list
   have inF_scOut : ∀ x, x ∈ t.scOuts.map (·.1) → ∃ q ∈ (t.scOuts.map (fun x => (Kind.sc, x.1)) ++ (t.sfIns.map (fun i => (Kind.sc, i.claimId)) ++
@@ -309,7 +315,7 @@ theorem v2txn_conserves {T} {ms ms' : Mid} {t : Txn2} {mw : Nat} {R : List (Kind
     · intro hm
       obtain ⟨q, hq, he⟩ := inF_scOut _ hm
       exact h0.not_fresh hF q hq he
-  obtain ⟨r3, F3, e3P, e3S, e3p, e3W⟩ := loop_sfIns2 t.sfIns ms2 ms3 _ hc2 r2.inv pSf2 hsfn F2 a3
+  obtain ⟨r3, F3, e3P, e3S, e3p, e3W, e3Wc⟩ := loop_sfIns2 t.sfIns ms2 ms3 _ hc2 r2.inv pSf2 hsfn F2 a3
   have hc3 : Ctx T ms3.base := by rw [r3.base]; exact hc2
   -- 4. siafund outputs
   obtain ⟨r4, F4, e4P, e4S, e4p, e4W⟩ := loop_sfOuts t.sfOuts ms3 ms4 _ hc3 r3.inv F3 a4
@@ -346,7 +352,7 @@ theorem v2txn_conserves {T} {ms ms' : Mid} {t : Txn2} {mw : Nat} {R : List (Kind
     intro r h
     refine ⟨(live5 _ (pRes r h).1).agree r6.agree ?_, (pRes r h).2⟩
     exact (hress r h).2.1
-  obtain ⟨r7, F7, e7P, e7S, e7p⟩ := loop_ress2 t.ress ms6 ms7 R hc6 r6.inv pRes6 hresn F6 a7
+  obtain ⟨r7, F7, e7P, e7S, e7p, e7W⟩ := loop_ress2 t.ress ms6 ms7 R hc6 r6.inv pRes6 hresn F6 a7
   -- 8. scalars
   obtain ⟨f1, f2, f3, f4, f5, f6, f7, f8⟩ := finish2_fields ms7 t
   have hb7 : ms7.base = ms.base := by
@@ -361,7 +367,7 @@ theorem v2txn_conserves {T} {ms ms' : Mid} {t : Txn2} {mw : Nat} {R : List (Kind
     have h3 : (t.sfIns.map (·.parent.value)).sum = (t.sfOuts.map (·.2.1)).sum := h1.symm.trans (hsfbal.trans h2)
     have : sfTot ms3 + (t.sfIns.map (·.parent.value)).sum = sfTot ms := by rw [← e1S, ← e2S]; exact e3S
     omega
-  refine ⟨r7.inv.scalars f1 f2 f3 f4 f5 f6 f7, ?_, f1.trans hb7, ?_, ?_, ?_, ?_, ?_⟩
+  refine ⟨r7.inv.scalars f1 f2 f3 f4 f5 f6 f7, ?_, f1.trans hb7, ?_, ?_, ?_, ?_, ?_, ?_⟩
   · exact F7.agree (agree_scalars f1 f2 f3 f4 f5 f6 f7 (fun _ => False)) (fun _ _ h => h)
   · rw [Phi_scalars f1 f4 f6 f7 f8]
     have hrs := ress_sums t.ress (fun r hr => by
@@ -415,5 +421,37 @@ theorem v2txn_conserves {T} {ms ms' : Mid} {t : Txn2} {mw : Nat} {R : List (Kind
     omega
   · unfold Txn2.taxes
     rw [f8, e7p, e6p, e5p, e4p, e3p, e2p, e1p]; exact Nat.add_assoc _ _ _
+  · intro hmd
+    have h1 := e1W (wImm ms.base.child) (wImm_congr _)
+    have z1 : (t.scIns.map (fun i => wImm ms.base.child i.parent)).sum = 0 := by
+      apply sum_map_zero; intro sci hm
+      unfold wImm; rw [if_pos (hsc sci hm).2.1]
+    have h2 := e2W (wImm ms.base.child)
+    have z2 : (t.scOuts.map (fun x => wImm ms.base.child ⟨x.1, x.2.value, x.2.addr, 0, none⟩)).sum = 0 := by
+      apply sum_map_zero; intro x _
+      unfold wImm; rw [if_pos (Nat.zero_le _)]
+    have h3 := e3Wc (wImm ms.base.child)
+    have hb2 : ms2.base = ms.base := by rw [r2.base, r1.base]
+    have z3 : (t.sfIns.map (fun i => wImm ms.base.child ⟨i.claimId,
+        claimVal ms2.pool i.parent.claimStart i.parent.value, i.claimAddr, maturityHeight ms2.base, none⟩)).sum =
+        t.claims ms.pool := by
+      unfold Txn2.claims
+      congr 1; apply List.map_congr_left; intro i _
+      unfold wImm maturityHeight
+      rw [hb2, e2p, e1p]
+      have : ¬ (ms.base.child + ms.base.P.maturityDelay ≤ ms.base.child) := by omega
+      simp only []
+      rw [if_neg this]
+    have h4 := foldlM_scW_same stepSfOut (fun b a b' hh w => by cases hh; exact scW_createSf _ _ _ _ w) _ _ _ a4
+      (wImm ms.base.child)
+    have h5 := foldlM_scW_same stepFc2 (fun b a b' hh w => scW_createFc2 hh w) _ _ _ a5 (wImm ms.base.child)
+    have h6 := foldlM_scW_same stepRev2 (fun b a b' hh w => by cases hh; exact scW_reviseFc2 _ _ _ w) _ _ _ a6
+      (wImm ms.base.child)
+    have h7 := e7W (wImm ms.base.child)
+    have h8 : scW (wImm ms.base.child) (finish2 ms7 t) = scW (wImm ms.base.child) ms7 := scW_congr _ f1 f4
+    rw [z3] at h3
+    rw [z2] at h2
+    rw [z1] at h1
+    omega
 
 end Sia.Ledger
